@@ -110,7 +110,7 @@ def step (line : String) : String :=
       | some (x, y) => s!"ok {x} {y}"
       | none => "panic"
     | none => "bad-op"
-  | ["pk", s] =>
+  | "pk" :: s :: _ =>
     match ofHex s with
     | some b =>
       match decodePubKey b with
